@@ -252,7 +252,16 @@ class Obligation(object):
         with contextlib.redirect_stdout(io.StringIO()), warnings.catch_warnings():
             warnings.simplefilter('ignore')
             with np.errstate(all='ignore'):
-                return self.build(lambda name: env[name])
+                try:
+                    return self.build(lambda name: env[name])
+                except Exception as e:
+                    handler = getattr(self, 'on_exception', None)
+                    if handler is None:
+                        raise
+                    out = handler(e)
+                    if out is None:
+                        raise
+                    return out
 
     def input_names(self):
         return None
